@@ -40,6 +40,41 @@ type condRes struct {
 
 var condOverride = map[*ssa.If]condRes{}
 
+// pathResolve maps a value to the φ operand it is on the path being explored
+// (identity outside an exploration). stInfeasible, returned by an event's Edge,
+// tells the explorer that the edge contradicts what the path already
+// established (err != nil was taken for the very value now tested == nil).
+var pathResolve func(ssa.Value) ssa.Value
+
+const (
+	stInfeasible uint8 = 0xff
+	bFAIL        uint8 = 4 // the latest matching call's error was tested and found non-nil
+)
+
+func resolved(v ssa.Value) ssa.Value {
+	if pathResolve != nil {
+		return pathResolve(v)
+	}
+	return v
+}
+
+// nilTest: the edge (iff, succ0) asserts `tested == nil` (isNil) or `tested != nil`.
+func nilTest(iff *ssa.If, succ0 bool) (tested ssa.Value, isNil bool, ok bool) {
+	cond, pos := ifCond(iff, succ0)
+	b, isB := cond.(*ssa.BinOp)
+	if !isB || (b.Op != token.EQL && b.Op != token.NEQ) {
+		return nil, false, false
+	}
+	if isNilConst(b.Y) {
+		tested = b.X
+	} else if isNilConst(b.X) {
+		tested = b.Y
+	} else {
+		return nil, false, false
+	}
+	return tested, (b.Op == token.EQL) == pos, true
+}
+
 func ifCond(iff *ssa.If, succ0 bool) (ssa.Value, bool) {
 	if r, ok := condOverride[iff]; ok {
 		return normCond(r.v, succ0 != r.flip)
@@ -59,6 +94,21 @@ type okEv struct {
 	boolMode bool
 	sticky   bool // a later matching call does not reset an established event
 	reset    func(ssa.Instruction) bool
+	single   *ssa.Call // the only matching call instruction of the function, if there is exactly one
+}
+
+// sameCallFailed: v, as resolved on this path, is the error of the function's
+// only matching call, whose latest result this path has already found non-nil.
+func (e *okEv) sameCallFailed(st uint8, v ssa.Value) bool {
+	if st&bFAIL == 0 || e.single == nil || e.boolMode {
+		return false
+	}
+	v = resolved(v)
+	if x, ok := v.(*ssa.Extract); ok {
+		v = x.Tuple
+	}
+	c, ok := v.(*ssa.Call)
+	return ok && c == e.single
 }
 
 // newOkEv: event "a call matching isCall returned a nil error" (error mode).
@@ -79,12 +129,15 @@ func (e *okEv) init(fn *ssa.Function) {
 	e.carriers = map[ssa.Value]bool{}
 	e.cells = map[*ssa.Alloc]bool{}
 	e.fcells = map[*types.Var]bool{}
+	nCalls := 0
 	for _, b := range fn.Blocks {
 		for _, ins := range b.Instrs {
 			c, ok := ins.(*ssa.Call)
 			if !ok || !e.isCall(c) {
 				continue
 			}
+			nCalls++
+			e.single = c
 			var rs []ssa.Value
 			if e.boolMode {
 				rs = boolResults(c)
@@ -95,6 +148,9 @@ func (e *okEv) init(fn *ssa.Function) {
 				e.carriers[r] = true
 			}
 		}
+	}
+	if nCalls != 1 {
+		e.single = nil
 	}
 	// close over phis, local cells and value-preserving conversions
 	for changed := true; changed; {
@@ -175,25 +231,24 @@ func (e *okEv) Instr(st uint8, ins ssa.Instruction) uint8 {
 }
 
 func (e *okEv) Edge(st uint8, from *ssa.BasicBlock, succ int) uint8 {
+	iff, isIf := from.Instrs[len(from.Instrs)-1].(*ssa.If)
+	if isIf && !e.boolMode && st&bFAIL != 0 {
+		if tested, isNil, ok := nilTest(iff, succ == 0); ok && isNil && e.carriers[tested] && e.sameCallFailed(st, tested) {
+			return stInfeasible
+		}
+	}
 	if st&bPEND != 0 {
-		if iff, ok := from.Instrs[len(from.Instrs)-1].(*ssa.If); ok {
-			cond, pos := ifCond(iff, succ == 0)
+		if isIf {
 			if e.boolMode {
+				cond, pos := ifCond(iff, succ == 0)
 				if e.carriers[cond] && pos == e.want {
 					st |= bEST
 				}
-			} else if b, ok := cond.(*ssa.BinOp); ok && (b.Op == token.EQL || b.Op == token.NEQ) {
-				var tested ssa.Value
-				if isNilConst(b.Y) {
-					tested = b.X
-				} else if isNilConst(b.X) {
-					tested = b.Y
-				}
-				if tested != nil && e.carriers[tested] {
-					isNil := (b.Op == token.EQL) == pos
-					if isNil {
-						st |= bEST
-					}
+			} else if tested, isNil, ok := nilTest(iff, succ == 0); ok && e.carriers[tested] {
+				if isNil {
+					st |= bEST
+				} else {
+					st |= bFAIL
 				}
 			}
 		}
@@ -419,6 +474,29 @@ func explore(P *Prog, fn *ssa.Function, init uint64, evs []Ev, record func(ssa.I
 				}
 			}
 		}
+		sel := cur.phi
+		pathResolve = func(v ssa.Value) ssa.Value {
+			for i := 0; i < 8; i++ {
+				phi, ok := v.(*ssa.Phi)
+				if !ok {
+					break
+				}
+				slot, tracked := phiSlot[phi]
+				if !tracked {
+					break
+				}
+				k := int(getSt(sel, slot))
+				if k == 0 || k > len(phi.Edges) {
+					break
+				}
+				nv := phi.Edges[k-1]
+				if q, isPhi := nv.(*ssa.Phi); isPhi && q.Block() == phi.Block() {
+					break
+				}
+				v = nv
+			}
+			return v
+		}
 		var iff *ssa.If
 		feasible := [2]bool{true, true}
 		if len(b.Succs) == 2 && len(ex.phis) > 0 {
@@ -434,17 +512,44 @@ func explore(P *Prog, fn *ssa.Function, init uint64, evs []Ev, record func(ssa.I
 				}
 			}
 		}
+		if x, ok := b.Instrs[len(b.Instrs)-1].(*ssa.If); ok && len(b.Succs) == 2 {
+			// a nil test of a value that, on this path, is a known non-nil value or the nil constant
+			if tested, isNil0, isTest := nilTest(x, true); isTest {
+				r := pathResolve(tested)
+				if knownNonNil(r) {
+					if isNil0 {
+						feasible[0] = false
+					} else {
+						feasible[1] = false
+					}
+				} else if isNilConst(r) {
+					if isNil0 {
+						feasible[1] = false
+					} else {
+						feasible[0] = false
+					}
+				}
+			}
+		}
 		for si, succ := range b.Succs {
 			if len(b.Succs) == 2 && !feasible[si] {
 				continue
 			}
 			nst := st
+			contradiction := false
 			for i, e := range evs {
 				o := getSt(nst, i)
 				n := e.Edge(o, b, si)
+				if n == stInfeasible {
+					contradiction = true
+					break
+				}
 				if n != o {
 					nst = setSt(nst, i, n)
 				}
+			}
+			if contradiction {
+				continue
 			}
 			nphi := cur.phi
 			if len(ex.phis) > 0 {
@@ -477,6 +582,7 @@ func explore(P *Prog, fn *ssa.Function, init uint64, evs []Ev, record func(ssa.I
 		if iff != nil {
 			delete(condOverride, iff)
 		}
+		pathResolve = nil
 	}
 	return ex
 }
@@ -502,6 +608,20 @@ func condPhis(fn *ssa.Function) []*ssa.Phi {
 	for _, b := range fn.Blocks {
 		if iff, ok := b.Instrs[len(b.Instrs)-1].(*ssa.If); ok {
 			add(iff.Cond, 0)
+		}
+	}
+	// φs compared with nil (err := φ(callErr, nil); if err != nil): the test is
+	// correlated with the test that selected the operand
+	for _, b := range fn.Blocks {
+		if iff, ok := b.Instrs[len(b.Instrs)-1].(*ssa.If); ok {
+			c, _ := normCond(iff.Cond, true)
+			if bo, ok := c.(*ssa.BinOp); ok && (bo.Op == token.EQL || bo.Op == token.NEQ) {
+				if isNilConst(bo.Y) {
+					add(bo.X, 0)
+				} else if isNilConst(bo.X) {
+					add(bo.Y, 0)
+				}
+			}
 		}
 	}
 	return out
